@@ -43,7 +43,7 @@ META = {
         "every run length 0..2700 of each colour as a horizontal-coded row (all terminating and make-up codes). "
         "states = encoder states (row, a0, colour) visited, transitions = codings taken, traces = complete encodings "
         "decoded and compared; non-trivial = encoding with at least one black pixel. history: one CCITTFaxDecoder OBJECT used for a call history - every image "
-        "(all 1- and 2-row bitmaps of width 3 (thorough: 4), 72 of width 8) fed in two chunks at every split point, and fed up to every byte prefix (complete, or cut in the "
+        "(all 1- and 2-row bitmaps of width 3, 72 of width 8; thorough: also every 1- and 2-row first image of width 4 with one-row second images) fed in two chunks at every split point, and fed up to every byte prefix (complete, or cut in the "
         "middle of a row), then reset(), then every image of the same width: the second image must decode as on a fresh decoder; chain: every bitmap up to 4x2 and three wide "
         "two-row images behind ASCIIHex, ASCII85, Flate, Flate+ASCIIHex, RunLength (full and abbreviated filter names) and behind a decipher callback, through PDFStream.get_data."
     ),
@@ -225,6 +225,8 @@ def explore_history(st, w, first_image):
     from pdfminer.ccitt import CCITTFaxDecoder
 
     images = history_images(w)
+    if w == 4:
+        images = [img for img in images if len(img) == 1]  # thorough only: every first image of width 4, second images of one row (cost)
     A = first_image
     for bytealign in (False, True):
         dataA = std_encode(A, w, bytealign)
@@ -243,6 +245,13 @@ def explore_history(st, w, first_image):
                 fresh[tuple(B)] = (dB, out)
             # (1) split feeding of A
             whole = fresh[tuple(A)][1] if tuple(A) in fresh else None
+            if whole is None:
+                try:
+                    d = CCITTFaxDecoder(w, bytealign=bytealign, reversed=blackis1)
+                    d.feedbytes(dataA)
+                    whole = d.close()
+                except Exception:  # noqa
+                    whole = None
             for k in range(0, len(dataA) + 1):
                 st.states += 1
                 st.transitions += 2
